@@ -8,7 +8,7 @@ From CG Require Import Base.Prelude Model.Ast Model.Parser Model.Check Model.Dfa
 From CG Require Import Proofs.CheckSpans Proofs.PipelineSpans Proofs.CapstoneLayout.
 From CG Require Import Model.BashSem Model.Glob Spec.Lang Spec.ScriptRead Spec.Meaning Spec.Domain Spec.Invocations.
 From CG Require Import Proofs.TreeFacts Proofs.BashScript Proofs.BashCodec Proofs.EmbedEndToEnd Proofs.SubChecks
-  Proofs.BashMeaningSub Proofs.BashMeaningMix Proofs.StripFacts Proofs.GlobFacts Proofs.SubBridge Proofs.CapstoneMeaning.
+  Proofs.BashMeaningSub Proofs.BashMeaningMix Proofs.StripFacts Proofs.GlobFacts Proofs.SubBridge Proofs.CapstoneLits Proofs.CapstoneMeaning.
 From CG Require Import Spec.Choice Proofs.CheckProvenance Proofs.CapstoneCommands Proofs.CapstoneChoice.
 From CG Require Import Proofs.CapstoneTotalRun.
 From CGgen Require Import Consts.
@@ -78,9 +78,18 @@ Print Assumptions C14_compile_bash_definition_order.
     Discharged from the pipeline: [alts_nonempty] (parser), [valid_literal_order] of the main and
     of every within-word order and [valid_grouping] (validation of the oracles inside
     [compile_bash]), well-formedness of the automata.  What remains:
-    - [lits_nodup o] (decidable, evaluated by the tie): no literal is listed twice.  It does NOT
-      follow from the pipeline: Rust lists a literal twice when it occurs both without a
-      description and with the empty description (witness [cmd (x a | y a "");]);
+    - [text_descr_ok text] (decidable ON THE TEXT): no description string of the grammar is empty.
+      It replaces the former oracle-side hypothesis "no literal is listed twice", which is now
+      PROVED from it ([CapstoneLits.compiled_orders_nodup]: a literal order [orders_ok] accepts has
+      no repeated entry, for the main automaton and every within-word one).  Why it cannot be
+      dropped: Rust deduplicates literals on (text, OPTIONAL description) and prints a missing
+      description as "", so a literal that occurs both without a description and with the empty one
+      is listed twice (witness [cmd (x a | y a "");] -> [literals=("y" "x" "a" "a")]).  That is
+      unobservable in the script -- only the LATER entry gets transitions (the id map keeps the
+      last id) and both matchers skip an entry without a transition; the same state cannot carry
+      both (ambiguity check: conflicting descriptions); different fallback levels are the known
+      C09/C04 class -- but C04b's reader theorem and C01's matcher theorem are stated for
+      duplicate-free literal orders, and a literal id without any transition is outside them;
     - (A): [name_ok] (the command name is a bash function name), [no_nl] of the signature,
       [body_ok] (no command body has a lone closing brace line) -- C07 leaves;
     - (B): the WHOLE decided domain of C01 ([C01_bash_meaning], no [greedy_shadow] hypothesis, commands
@@ -102,7 +111,7 @@ Theorem C01_compile_bash_meaning :
       compile (pick_table (o_pops o)) (o_fuel o) builtins text Bash = Ok (v, c)
       /\ all_tables Bash c (o_main_lits o) (o_sub_lits o) = Ok (nd, a)
       /\ (name_ok (v_command v) -> no_nl (o_sig o) = true ->
-          Forall (fun cmd => body_ok (cmd_body cmd)) (a_commands a) -> lits_nodup o = true ->
+          Forall (fun cmd => body_ok (cmd_body cmd)) (a_commands a) -> text_descr_ok text = true ->
           (exists sts,
               script_stmts (v_command v) (d_start (c_main c)) nd a (o_groups o) = Ok sts
               /\ read_stmts Bash (v_command v) s = sts
@@ -112,7 +121,7 @@ Theorem C01_compile_bash_meaning :
           /\ tables_describe c (o_main_lits o) (o_sub_lits o) a
           /\ (forall w, accepts_items c w <-> denotes (v_expr v) w))
       /\ (forall (benv : BashSem.env) (en : Meaning.env) ws p,
-          lits_nodup o = true -> subs_deterministic c ->
+          text_descr_ok text = true -> subs_deterministic c ->
           C01_domain (v_expr v) = true -> C01_env_ok (v_expr v) en = true ->
           BashSem.e_ignore_case benv = false -> BashSem.e_wordbreaks benv = Meaning.e_wordbreaks en ->
           breaks_ok (BashSem.e_wordbreaks benv) = true -> plain p = true -> printable_str p = true ->
@@ -133,7 +142,7 @@ Check C01_compile_bash_meaning :
       compile (pick_table (o_pops o)) (o_fuel o) builtins text Bash = Ok (v, c)
       /\ all_tables Bash c (o_main_lits o) (o_sub_lits o) = Ok (nd, a)
       /\ (name_ok (v_command v) -> no_nl (o_sig o) = true ->
-          Forall (fun cmd => body_ok (cmd_body cmd)) (a_commands a) -> lits_nodup o = true ->
+          Forall (fun cmd => body_ok (cmd_body cmd)) (a_commands a) -> text_descr_ok text = true ->
           (exists sts,
               script_stmts (v_command v) (d_start (c_main c)) nd a (o_groups o) = Ok sts
               /\ read_stmts Bash (v_command v) s = sts
@@ -143,7 +152,7 @@ Check C01_compile_bash_meaning :
           /\ tables_describe c (o_main_lits o) (o_sub_lits o) a
           /\ (forall w, accepts_items c w <-> denotes (v_expr v) w))
       /\ (forall (benv : BashSem.env) (en : Meaning.env) ws p,
-          lits_nodup o = true -> subs_deterministic c ->
+          text_descr_ok text = true -> subs_deterministic c ->
           C01_domain (v_expr v) = true -> C01_env_ok (v_expr v) en = true ->
           BashSem.e_ignore_case benv = false -> BashSem.e_wordbreaks benv = Meaning.e_wordbreaks en ->
           breaks_ok (BashSem.e_wordbreaks benv) = true -> plain p = true -> printable_str p = true ->
@@ -159,14 +168,14 @@ Check C01_compile_bash_meaning :
 Print Assumptions C01_compile_bash_meaning.
 
 (** Non-vacuity: for the text below (a fallback, a within-word expression, a literal) [compile_bash]
-    returns a script, the tree is in the proved layers and in the decided domain, no literal is
-    listed twice, the decidable form of [subs_deterministic] holds. *)
+    returns a script, the tree is in the proved layers and in the decided domain, no description
+    is empty, the decidable form of [subs_deterministic] holds. *)
 Definition exm_text : string := "cmd (add || --k=(x|yz)) end;".
 Definition exm_o : oracles :=
   mkoracles [] 100 [("end", ""); ("add", "")] [(0, [("--k=", ""); ("yz", ""); ("x", "")])] [[0]] "sig".
 Example ex_C01_capstone_inhabited :
   is_ok (compile_bash exm_o builtins exm_text) = true
-  /\ lits_nodup exm_o = true
+  /\ text_descr_ok exm_text = true
   /\ match compile (pick_table (o_pops exm_o)) (o_fuel exm_o) builtins exm_text Bash with
      | Ok (v, c) => SubBridge.sub_tree (v_expr v) = true /\ C01_domain (v_expr v) = true /\ subs_single c = true
                     /\ name_ok (v_command v)
